@@ -25,7 +25,7 @@ def CommonField (f : AField) : Prop :=
 
 def CommonReset (r : Option ResetValue) : Prop :=
   match r with
-  | some (.int n) => n < 2 ^ 64        -- manifest integers are u64, the DSL takes u128
+  | some (.int n) => n < 2 ^ 63        -- YAML / TOML integers are i64 (JSON: u64, the DSL: u128)
   | _ => True
 
 def CommonOverride (ov : AOverride) : Prop :=
@@ -76,8 +76,8 @@ theorem field_agree (g : GlobalConfig) (f : AField) (h : CommonField f) : dslFie
       | ty p t => simp only [hc] at h2; simp [hc, h2]
       | «enum» e t => simp only [hc] at h2; simp [hc, h2]
 
-theorem reset_agree (r : Option ResetValue) (h : CommonReset r) : dslReset r = manReset r := by
-  unfold dslReset manReset
+theorem reset_agree (syn : Syntax) (r : Option ResetValue) (h : CommonReset r) : dslReset r = manReset syn r := by
+  unfold dslReset manReset manUintOk
   cases r with
   | none => rfl
   | some rv =>
@@ -85,26 +85,28 @@ theorem reset_agree (r : Option ResetValue) (h : CommonReset r) : dslReset r = m
     | int n =>
       simp only [CommonReset] at h
       have h1 : n < 2 ^ 128 := by omega
-      simp [h1, fitsU64, h]
+      have h2 : n < 18446744073709551616 := by omega
+      have h3 : n < 9223372036854775808 := by omega
+      cases syn <;> simp [h1, fitsU64, h2, h3]
     | array a => rfl
 
-theorem override_agree (target : String) (ov : AOverride) (h : CommonOverride ov) :
-    dslOverride target ov = manOverride target ov := by
+theorem override_agree (syn : Syntax) (target : String) (ov : AOverride) (h : CommonOverride ov) :
+    dslOverride target ov = manOverride syn target ov := by
   unfold dslOverride manOverride
   obtain ⟨h1, h2, h3⟩ := h
   simp only [h1, List.isEmpty_nil, Bool.not_true, Bool.false_eq_true, if_false]
-  rcases h2 with hk | hk | hk <;> simp [hk, reset_agree ov.reset h3]
+  rcases h2 with hk | hk | hk <;> simp [hk, reset_agree syn ov.reset h3]
 
 mutual
-theorem obj_agree (g : GlobalConfig) : ∀ (o : AObj), CommonObj o → dslObj g o = manObj g o
+theorem obj_agree (syn : Syntax) (g : GlobalConfig) : ∀ (o : AObj), CommonObj o → dslObj g o = manObj syn g o
   | .block c off rep os, h => by
     unfold dslObj manObj
     unfold CommonObj at h
-    rw [objs_agree g os h]
+    rw [objs_agree syn g os h]
   | .register c access bo bito address size reset rep abo aao fields, h => by
     unfold dslObj manObj
     unfold CommonObj at h
-    rw [mapM_congr_mem _ _ fields (fun f hf => field_agree g f (h.2 f hf)), reset_agree reset h.1]
+    rw [mapM_congr_mem _ _ fields (fun f hf => field_agree g f (h.2 f hf)), reset_agree syn reset h.1]
   | .command c basic address bo bito si so rep abo aao fin fout, h => by
     unfold dslObj manObj
     unfold CommonObj at h
@@ -121,31 +123,33 @@ theorem obj_agree (g : GlobalConfig) : ∀ (o : AObj), CommonObj o → dslObj g 
   | .ref c target ov, h => by
     unfold dslObj manObj
     unfold CommonObj at h
-    rw [override_agree target ov h]
-theorem objs_agree (g : GlobalConfig) : ∀ (os : List AObj), CommonObjs os → dslObjs g os = manObjs g os
+    rw [override_agree syn target ov h]
+theorem objs_agree (syn : Syntax) (g : GlobalConfig) : ∀ (os : List AObj), CommonObjs os → dslObjs g os = manObjs syn g os
   | [], _ => by unfold dslObjs manObjs; rfl
   | o :: os, h => by
     unfold dslObjs manObjs
     unfold CommonObjs at h
-    rw [obj_agree g o h.1, objs_agree g os h.2]
+    rw [obj_agree syn g o h.1, objs_agree syn g os h.2]
 end
 
 /-- **C16.** On every definition of the common fragment the DSL lowering and the manifest lowering
     agree — same MIR or same rejection, with every global-config default applied the same way. -/
-theorem front_ends_agree (d : ADef) (h : CommonObjs d.objects) : lowerDsl d = lowerManifest d := by
-  simp only [lowerDsl, lowerManifest, objs_agree _ d.objects h]
+theorem front_ends_agree (syn : Syntax) (d : ADef) (h : CommonObjs d.objects) :
+    lowerDsl d = lowerManifest syn d := by
+  simp only [lowerDsl, lowerManifest, objs_agree syn _ d.objects h]
 
 /-- … hence the same driver and the same accept/reject decision from all four syntaxes. -/
 theorem same_driver (n : Names) (name : String) (d : ADef) (h : CommonObjs d.objects) (s : Syntax) :
     generate n s name d = generate n .dsl name d := by
   unfold generate lowerFront
-  cases s <;> simp only [front_ends_agree d h]
+  cases s <;> simp only [← front_ends_agree _ d h]
 
 /-- Every global default reaches the objects that do not set their own value, in both front ends:
     (register access, shown on the manifest side, where it used to be ignored). -/
 theorem default_register_access_applied (g : GlobalConfig) (c : ACommon) (bo : Option DDV.Bits.ByteOrder)
     (bito : Option DDV.Bits.BitOrder) (address : Int) (size : Nat) (o : Object)
-    (h : manObj g (.register c none bo bito address size none none none none []) = .ok o) :
+    (syn : Syntax)
+    (h : manObj syn g (.register c none bo bito address size none none none none []) = .ok o) :
     ∃ r, o = .register r ∧ r.access = g.defaultRegisterAccess ∧ r.bitOrder = bito.getD g.defaultBitOrder := by
   unfold manObj at h
   simp only [bind, Except.bind, pure, Except.pure, List.mapM_nil, manReset, checkRepeat] at h
